@@ -82,6 +82,7 @@ pub fn build_cuts(rng: &mut Rng, nconn: usize, max_calls: usize, allow_write_fai
             }
             if failing == Some(i) && c.fail_write_at.is_none() && nitems > 0 && !k.oneway {
                 c.fail_write_at = Some(nwrites_before_items + rng.below(nitems));
+                c.write_err_kind = rng.below(5) as u8;
             }
             if !k.oneway {
                 nwrites_before_items += nitems;
